@@ -81,6 +81,13 @@ func runsFor(prop, tier string) []run {
 			{"rf3-from-initial", full, pick(7, 9), minutes(pickf(0.6, 4))},
 			{"rf2-from-initial", r2, pick(7, 9), minutes(pickf(0.4, 3))},
 			{"rf1-from-initial", r1, pick(6, 8), minutes(pickf(0.3, 2))},
+			// every backend's data path is the real rpc.Client -> loopback TCP -> real rpc.Server -> node
+			{"rf3-from-3rw-data-path-through-rpc", func() eb.Cfg {
+				c := mk(3, rw3)
+				c.Alphabet = append(append([]string{}, io...), "Remove", "MonFail")
+				c.ViaRPC = true
+				return c
+			}(), pick(3, 4), minutes(pickf(0.5, 4))},
 		}
 	case "C03":
 		alpha := append(append(append([]string{}, io...), member...), "ERR", "RW", "Snap")
@@ -119,6 +126,14 @@ func runsFor(prop, tier string) []run {
 			{"rf3-from-1rw+wo", mk(rw1wo, true), pick(5, 7), minutes(pickf(0.5, 4))},
 			{"rf3-from-1rw", mk(started, true), pick(6, 8), minutes(pickf(0.5, 4))},
 			{"rf3-from-2rw+wo-windows", mk(rw2wo, false), pick(4, 6), minutes(pickf(0.6, 4))},
+			// every backend's data path is the real rpc.Client -> loopback TCP -> real rpc.Server -> node (a scripted failure
+			// of a data call is an error reply of the server)
+			{"rf3-from-3rw-data-path-through-rpc", func() eb.Cfg {
+				c := mk(rw3, true)
+				c.Alphabet = []string{"W0", "R", "Remove", "ERR", "MonFail", "Restart"}
+				c.ViaRPC = true
+				return c
+			}(), pick(3, 5), minutes(pickf(0.5, 4))},
 		}
 	case "C05":
 		alpha := []string{"W", "Sy", "R", "Snap", "ERR", "MonFail", "MonWake", "Remove", "Add", "Sync", "Verify", "Restart"}
@@ -130,6 +145,12 @@ func runsFor(prop, tier string) []run {
 			{"rf3-from-3rw", mk(3, 3, rw3), pick(4, 6), minutes(pickf(1, 6))},
 			{"rf3-from-2rw+wo", mk(3, 3, rw2wo), pick(4, 6), minutes(pickf(0.8, 5))},
 			{"rf3-from-2rw", mk(3, 3, rw2), pick(5, 7), minutes(pickf(0.7, 5))},
+			{"rf3-from-3rw-data-path-through-rpc", func() eb.Cfg {
+				c := mk(3, 3, rw3)
+				c.Alphabet = []string{"W", "Sy", "R", "MonFail", "MonWake", "Remove"}
+				c.ViaRPC = true
+				return c
+			}(), pick(3, 4), minutes(pickf(0.5, 4))},
 			{"rf2-from-2rw", mk(2, 2, rw2), pick(5, 7), minutes(pickf(0.5, 3))},
 		}
 	case "C09":
